@@ -20,7 +20,7 @@
    notice the rest of the session is only checked for PyHang (what Python writes while the
    daemon is exiting depends on a race with waitpid).                                       *)
 EXTENDS EbdProtocol, TraceLib
-VARIABLES l, py, d, c2d, dout, pw, free
+VARIABLES l, py, d, c2d, dout, pw, free, lw
 
 M(x) == [cmd |-> x.cmd, arg |-> x.arg, rid |-> 0, need |-> x.need, have |-> x.have, data |-> FALSE]
 
@@ -63,7 +63,7 @@ DEmit(dd, q, o, L, fuel) ==
 
 InShutdown(p) == p.script # <<>> /\ p.script[Len(p.script)].op = "ret" /\ \E k \in DOMAIN p.script : p.script[k].op = "close"
 
-TraceInit == l = 0 /\ py = PyInit /\ d = DInit /\ c2d = <<>> /\ dout = <<>> /\ pw = <<>> /\ free = FALSE
+TraceInit == l = 0 /\ py = PyInit /\ d = DInit /\ c2d = <<>> /\ dout = <<>> /\ pw = <<>> /\ free = FALSE /\ lw = FALSE
 
 S(bad, p, dd, q, o, w, f) == [bad |-> bad, py |-> p, d |-> dd, c2d |-> q, dout |-> o, pw |-> w, free |-> f]
 Idle(p) == [p EXCEPT !.mode = IF p.closed THEN "done" ELSE "idle", !.script = <<>>, !.pend = <<>>, !.sub = 0, !.got = <<>>]
@@ -109,7 +109,8 @@ Step(e) ==
          IF e.out = "EPIPE" THEN S({}, Idle(pe), d0, q0, o0, <<>>, TRUE)
          \* shutdown_processor() swallows a broken pipe / closed file while probing and goes on to
          \* kill + wait: same final value, fewer lines on the wire
-         ELSE IF InShutdown(p) /\ p.script[Len(p.script)].val = e.out THEN S({}, [Idle(p) EXCEPT !.closed = TRUE, !.mode = "done"], d0, q0, o0, <<>>, TRUE)
+         \* (only directly after a write: that is where the broken pipe is noticed)
+         ELSE IF lw /\ ~fresh /\ InShutdown(p) /\ p.script[Len(p.script)].val = e.out THEN S({}, [Idle(p) EXCEPT !.closed = TRUE, !.mode = "done"], d0, q0, o0, <<>>, TRUE)
          ELSE IF pe.mode \in {"idle", "done"} /\ pe.out = e.out /\ w0 = <<>> THEN S({}, pe, d0, q0, o0, <<>>, FALSE)
          ELSE S({"PyOutcome"}, [Idle(pe) EXCEPT !.pend = pe.pend], d0, q0, o0, <<>>, FALSE)
     [] e.ev = "hang" -> S({"PyHang"}, Idle(p), d0, q0, o0, <<>>, FALSE)
@@ -119,7 +120,8 @@ TraceNext ==
   /\ LET e == Tr[l']
          s == Step(e) IN
      /\ py' = s.py /\ d' = s.d /\ c2d' = s.c2d /\ dout' = s.dout /\ pw' = s.pw /\ free' = s.free
+     /\ lw' = (e.ev = "w")
      /\ Report(e.tid, e.i, s.bad)
   /\ EndMark(l')
-TraceSpec == TraceInit /\ [][TraceNext]_<<l, py, d, c2d, dout, pw, free>>
+TraceSpec == TraceInit /\ [][TraceNext]_<<l, py, d, c2d, dout, pw, free, lw>>
 =========================================================================
